@@ -11,7 +11,7 @@ ASSUME = [
     "the via-circuit API (Circuit.stream_via / TorCircuitEndpoint) and a user-installed attacher are not mixed, and the module-wide "
     "via-circuit attacher is not removed by the user (documented as an error in set_attacher)",
     "a circuit used by a pending via-circuit connection stays BUILT until the connection's stream has appeared",
-    "SimTor acknowledges every command at once; attacher error reports are observed at TorState._attacher_error (wrapped on the instance)",
+    "SimTor acknowledges every command at once, except that the SETCONF installing the via-circuit attacher may be answered in a later step (ConfAck); attacher error reports are observed at TorState._attacher_error (wrapped on the instance)",
     "the SOCKS endpoint of a via-circuit connection is a fake whose local address the script supplies",
 ]
 
@@ -23,16 +23,23 @@ def rand_script(rng, n):
     via = {"k1": dict(st="idle"), "k2": dict(st="idle")}
     out = []
     tries = 0
+    hold = [False]
     while len(out) < n and tries < 10 * n:
         tries += 1
         r = rng.random()
-        if r < 0.25:
+        if hold[0] and r < 0.3:
+            hold[0] = False
+            for v in via.values():
+                if v["st"] == "waitconf":
+                    v["st"] = "waitaddr"
+            out.append(dict(a="ConfAck"))
+        elif r < 0.25:
             c = rng.choice([1, 2])
             nxt = {"none": ["BUILDING"], "BUILDING": ["BUILT", "BUILT", "GONE"], "BUILT": ["GONE"], "GONE": []}[cs[c]]
             if not nxt:
                 continue
             to = rng.choice(nxt)
-            if to == "GONE" and cs[c] == "BUILT" and any(v["st"] in ("waitaddr", "reg") and v["c"] == c for v in via.values()):
+            if to == "GONE" and cs[c] == "BUILT" and any(v["st"] in ("waitconf", "waitaddr", "reg") and v["c"] == c for v in via.values()):
                 continue
             cs[c] = to
             out.append(dict(a="CircStep", c=c, to=to))
@@ -80,9 +87,12 @@ def rand_script(rng, n):
             if not ks or not cb or att_ == "A":
                 continue
             k, c = rng.choice(ks), rng.choice(cb)
-            via[k] = dict(st="waitaddr", c=c)
+            late = att_ == "none" and rng.random() < 0.6
+            via[k] = dict(st="waitconf" if late else "waitaddr", c=c)
             att_ = "V"
-            out.append(dict(a="ViaConnect", k=k, c=c))
+            out.append(dict(a="ViaConnect", k=k, c=c, late=late))
+            if late:
+                hold[0] = True
         else:
             ks = [k for k, v in via.items() if v["st"] == "waitaddr"]
             if not ks:
